@@ -811,6 +811,9 @@ type xQuery struct {
 	Set   *xSelSet
 	Defs  map[string]*xFrag // named fragment definitions in use
 	Vars  map[string]interface{}
+	// Defaults: declared default values of variables ($c: Boolean = true); a variable with a default may be
+	// supplied (the supplied value wins, also false over a default of true) or left out (the default counts)
+	Defaults map[string]bool
 	Text  string
 	alias map[string]int
 }
@@ -836,7 +839,21 @@ func (g *xQGen) dirs() xDirs {
 		if g.r.Chance(0.4) {
 			g.nextVar++
 			vn := fmt.Sprintf("c%d", g.nextVar)
-			g.q.Vars[vn] = b
+			if g.q.Defaults == nil {
+				g.q.Defaults = map[string]bool{}
+			}
+			switch g.r.Intn(10) {
+			case 0, 1, 2: // a default the supplied value overrides
+				g.q.Defaults[vn] = !b
+				g.q.Vars[vn] = b
+			case 3, 4: // the default counts: nothing supplied
+				g.q.Defaults[vn] = b
+			case 5: // default and supplied value agree
+				g.q.Defaults[vn] = b
+				g.q.Vars[vn] = b
+			default:
+				g.q.Vars[vn] = b
+			}
 			parts = append(parts, fmt.Sprintf("@%s(if: $%s)", name, vn))
 		} else {
 			parts = append(parts, fmt.Sprintf("@%s(if: %v)", name, b))
@@ -1010,15 +1027,26 @@ func (ss *xSelSet) render(b *strings.Builder) {
 func (q *xQuery) render() string {
 	var b strings.Builder
 	b.WriteString("query Q")
-	if len(q.Vars) > 0 {
+	if len(q.Vars)+len(q.Defaults) > 0 {
+		seen := map[string]bool{}
 		var names []string
 		for n := range q.Vars {
+			seen[n] = true
 			names = append(names, n)
+		}
+		for n := range q.Defaults {
+			if !seen[n] {
+				names = append(names, n)
+			}
 		}
 		sort.Strings(names)
 		var defs []string
 		for _, n := range names {
-			defs = append(defs, "$"+n+": Boolean")
+			if d, ok := q.Defaults[n]; ok {
+				defs = append(defs, fmt.Sprintf("$%s: Boolean = %v", n, d))
+			} else {
+				defs = append(defs, "$"+n+": Boolean")
+			}
 		}
 		b.WriteString("(" + strings.Join(defs, ", ") + ")")
 	}
